@@ -14,7 +14,7 @@
    It decides nothing about the code (DESIGN 2.3): MC_FilesFS checks it against Part I.
 
    Text = sequence of bytes.  A tree F is a sequence of records [n |-> name, d |-> content].
-   A result record r = [op, n, err, data, ents, info]; booleans are 0/1 (JSON). *)
+   A result record r = [op, n, err] + info (stat) / data (read) / ents (readdir); booleans are 0/1 (JSON). *)
 EXTENDS Integers, Sequences, FiniteSets, Text, Utf8
 
 Slash == 47
@@ -26,12 +26,12 @@ Root == <<Dot>>
 (* ======================================================================================= *)
 
 \* fs.ValidPath as documented: UTF-8, "." or slash-separated elements none of which is "", "." or ".."
+\* (TLC re-evaluates a LET definition at every use but evaluates an operator argument once: values used
+\*  several times are passed as arguments of helper operators throughout this module)
 RECURSIVE ElemsOkFrom(_, _)
-ElemsOkFrom(p, i) ==
-  LET j == IndexByteFrom(p, Slash, i)
-      e == IF j = 0 THEN From(p, i) ELSE Sub(p, i, j - 1) IN
-  IF e = <<>> \/ e = <<Dot>> \/ e = <<Dot, Dot>> THEN FALSE
-  ELSE IF j = 0 THEN TRUE ELSE ElemsOkFrom(p, j + 1)
+ElemOk(e) == ~(e = <<>> \/ e = <<Dot>> \/ e = <<Dot, Dot>>)
+ElemsOkAt(p, i, j) == IF j = 0 THEN ElemOk(From(p, i)) ELSE ElemOk(Sub(p, i, j - 1)) /\ ElemsOkFrom(p, j + 1)
+ElemsOkFrom(p, i) == ElemsOkAt(p, i, IndexByteFrom(p, Slash, i))
 ValidPath(p) == Valid(p) /\ (p = Root \/ ElemsOkFrom(p, 1))
 
 NameSet(F) == {F[i].n : i \in DOMAIN F}
@@ -50,9 +50,9 @@ LastSlashFrom(p, i) == IF i = 0 THEN 0 ELSE IF p[i] = Slash THEN i ELSE LastSlas
 Base(p) == From(p, LastSlashFrom(p, Len(p)) + 1)                \* final path element ("." for the root)
 
 \* the children of directory p, as base names (a set: each child once)
-ChildOf(m, pre) == LET rest == From(m, Len(pre) + 1)
-                       j == IndexByteFrom(rest, Slash, 1) IN
-                   IF j = 0 THEN rest ELSE Sub(rest, 1, j - 1)
+ChildCut(rest, j) == IF j = 0 THEN rest ELSE Sub(rest, 1, j - 1)
+ChildOfRest(rest) == ChildCut(rest, IndexByteFrom(rest, Slash, 1))
+ChildOf(m, pre) == ChildOfRest(From(m, Len(pre) + 1))
 Children(F, p) == {ChildOf(m, DirPrefix(p)) : m \in {x \in NameSet(F) : HasPrefix(x, DirPrefix(p))}}
 
 \* byte-wise lexicographic order (what "sorted by filename" means for Go strings)
@@ -63,15 +63,17 @@ LexLessFrom(a, b, i) == IF i > Len(b) THEN FALSE
                         ELSE LexLessFrom(a, b, i + 1)
 LexLess(a, b) == LexLessFrom(a, b, 1)
 \* the listing: every child exactly once, in increasing name order
-Listing(F, p) == LET S == Children(F, p) IN
-                 [k \in 1..Cardinality(S) |-> CHOOSE x \in S : Cardinality({y \in S : LexLess(y, x)}) = k - 1]
+SortedSeqOf(S) == [k \in 1..Cardinality(S) |-> CHOOSE x \in S : Cardinality({y \in S : LexLess(y, x)}) = k - 1]
+AsTuple(f) == SubSeq(f, 1, Len(f))                              \* forces the function into an explicit tuple
+Listing(F, p) == AsTuple(SortedSeqOf(Children(F, p)))
 SeqSet(s) == {s[i] : i \in DOMAIN s}
 
 (* ---- handle state ---- *)
 \* kind: "file" | "dir" | "none" (Open must fail); pos: byte offset / index of the next entry
 RefOpen(F, p) == [kind |-> IF ~ValidPath(p) THEN "none" ELSE IF IsFile(F, p) THEN "file"
                            ELSE IF IsDir(F, p) THEN "dir" ELSE "none",
-                  path |-> p, pos |-> 0, closed |-> FALSE]
+                  path |-> p, pos |-> 0, closed |-> FALSE,
+                  all |-> FALSE]          \* all: a ReadDir(n<=0) was accepted on this handle (diagnosis only)
 
 \* Open: valid existing name (file or implied directory, "." included) opens; a name that is not
 \* ValidPath is rejected with ErrInvalid or ErrNotExist (fs.FS doc allows both); a valid missing
@@ -87,52 +89,52 @@ OpenCause(F, p, o) ==
 \* FileInfo of path q (from Stat, or from a DirEntry's Info): base name, directory-ness consistent
 \* between IsDir() and Mode().Type(), size = content length for files (size of a directory is
 \* "system-dependent": not judged; permission bits are not specified: not judged here)
-InfoCause(F, q, i) ==
+InfoCauseK(F, q, i, isfile) ==
   IF i.name # Base(q) THEN "name"
-  ELSE IF IsFile(F, q) THEN (IF i.isdir # 0 \/ i.mtyp # "file" THEN "mode-of-file"
-                             ELSE IF i.size # Len(DataOf(F, q)) THEN "size" ELSE "")
+  ELSE IF isfile THEN (IF i.isdir # 0 \/ i.mtyp # "file" THEN "mode-of-file"
+                       ELSE IF i.size # Len(DataOf(F, q)) THEN "size" ELSE "")
   ELSE IF i.isdir # 1 \/ i.mtyp # "dir" THEN "mode-of-directory" ELSE ""
+InfoCause(F, q, i) == InfoCauseK(F, q, i, IsFile(F, q))
 
+StatName(c) == CASE c = "" -> "" [] c = "name" -> "stat-name" [] c = "size" -> "stat-size" [] OTHER -> "stat-mode"
 StatCause(F, h, r) ==
-  IF r.err # "nil" THEN "stat-error"
-  ELSE LET c == InfoCause(F, h.path, r.info) IN
-       CASE c = "" -> "" [] c = "name" -> "stat-name" [] c = "size" -> "stat-size" [] OTHER -> "stat-mode"
+  IF r.err # "nil" THEN "stat-error" ELSE StatName(InfoCause(F, h.path, r.info))
 
 \* Read(n) on a file (io.Reader + "reading every file gives consistent results"): the bytes returned
 \* are the next k <= n bytes of the content; io.EOF only when nothing is left after them; at the end a
 \* Read with n > 0 says io.EOF; a Read with n > 0 and content left makes progress (reading (0, nil)
 \* forever would make the file unreadable by io.ReadAll - chosen reading, io.Reader only "discourages" it).
-ReadCause(F, h, r) ==
-  LET D == DataOf(F, h.path)
-      rem == From(D, h.pos + 1)
-      k == Len(r.data) IN
+ReadCauseK(r, rem, k) ==
   IF r.err \notin {"nil", "EOF"} THEN "read-error"
   ELSE IF k > r.n THEN "read-more-than-asked"
   ELSE IF k > Len(rem) \/ r.data # Sub(rem, 1, k) THEN "read-wrong-bytes"
   ELSE IF r.err = "EOF" /\ k < Len(rem) THEN "read-eof-before-end"
   ELSE IF r.err = "nil" /\ k = 0 /\ r.n > 0 THEN (IF rem = <<>> THEN "read-no-eof-at-end" ELSE "read-no-progress")
   ELSE ""
+ReadCause(F, h, r) == ReadCauseK(r, From(DataOf(F, h.path), h.pos + 1), Len(r.data))
 
 \* one directory entry e for child name c of directory p
-EntryCause(F, p, c, e) ==
-  LET q == Join(p, c)
-      ic == InfoCause(F, q, e.info) IN
+EntryInfoName(ic) == CASE ic = "name" -> "entry-info-name" [] ic = "size" -> "entry-info-size"
+                        [] ic = "mode-of-file" -> "entry-info-mode-of-file" [] OTHER -> "entry-info-mode-of-directory"
+EntryCauseK(F, c, e, q, isfile, ic) ==
   IF e.name # c THEN "entry-name"
-  ELSE IF IsFile(F, q) /\ (e.isdir # 0 \/ e.typ # "file") THEN "entry-mode-of-file"
-  ELSE IF ~IsFile(F, q) /\ (e.isdir # 1 \/ e.typ # "dir") THEN "entry-mode-of-directory"
+  ELSE IF isfile /\ (e.isdir # 0 \/ e.typ # "file") THEN "entry-mode-of-file"
+  ELSE IF ~isfile /\ (e.isdir # 1 \/ e.typ # "dir") THEN "entry-mode-of-directory"
   ELSE IF e.ierr # "nil" THEN "entry-info-error"
-  ELSE IF ic # "" THEN (CASE ic = "name" -> "entry-info-name" [] ic = "size" -> "entry-info-size"
-                          [] ic = "mode-of-file" -> "entry-info-mode-of-file" [] OTHER -> "entry-info-mode-of-directory")
+  ELSE IF ic # "" THEN EntryInfoName(ic)
   \* ... and agrees with Stat of the child opened by its path (logged by the driver in e.st)
   ELSE IF e.st.err # "nil" THEN "entry-child-not-statable"
   ELSE IF e.st.name # e.info.name \/ e.st.isdir # e.info.isdir \/ e.st.mtyp # e.info.mtyp
-          \/ e.st.perm # e.info.perm \/ (IsFile(F, q) /\ e.st.size # e.info.size) THEN "entry-info-differs-from-stat"
+          \/ e.st.perm # e.info.perm \/ (isfile /\ e.st.size # e.info.size) THEN "entry-info-differs-from-stat"
   ELSE ""
+EntryCauseQ(F, c, e, q, isfile) == EntryCauseK(F, c, e, q, isfile, InfoCauseK(F, q, e.info, isfile))
+EntryCauseP(F, c, e, q) == EntryCauseQ(F, c, e, q, IsFile(F, q))
+EntryCause(F, p, c, e) == EntryCauseP(F, c, e, Join(p, c))
 RECURSIVE EntriesCauseFrom(_, _, _, _, _)
+FirstOr(c, rest) == IF c # "" THEN c ELSE rest            \* rest is evaluated only when needed (lazy argument)
 EntriesCauseFrom(F, p, want, ents, j) ==
   IF j > Len(ents) THEN ""
-  ELSE LET c == EntryCause(F, p, want[j], ents[j]) IN
-       IF c # "" THEN c ELSE EntriesCauseFrom(F, p, want, ents, j + 1)
+  ELSE FirstOr(EntryCause(F, p, want[j], ents[j]), EntriesCauseFrom(F, p, want, ents, j + 1))
 
 EntNames(ents) == [j \in 1..Len(ents) |-> ents[j].name]
 WrongNames(got, want) == IF SeqSet(got) = SeqSet(want) /\ Len(got) = Len(want) THEN "order" ELSE "set"
@@ -141,18 +143,16 @@ WrongNames(got, want) == IF SeqSet(got) = SeqSet(want) /\ Len(got) = Len(want) T
 \*  n > 0 : between 1 and n entries, the next ones of rem, nil error; at the end: no entry and io.EOF
 \*          (io.EOF itself, and only with an empty slice at the end).
 \*  n <= 0: exactly all of rem (possibly none) and a nil error.
-ReadDirCause(F, h, r) ==
-  LET L == Listing(F, h.path)
-      rem == From(L, h.pos + 1)
-      k == Len(r.ents)
-      names == EntNames(r.ents) IN
+ReadDirCauseK(F, h, r, L, rem, k, names) ==
   IF r.err \notin {"nil", "EOF"} THEN "readdir-error"
   ELSE IF r.n > 0 THEN
     IF r.err = "EOF" THEN (IF k # 0 THEN "readdir-eof-with-entries" ELSE IF rem # <<>> THEN "readdir-eof-before-end" ELSE "")
     ELSE IF k = 0 THEN (IF rem = <<>> THEN "readdir-no-eof-at-end" ELSE "readdir-empty-without-error")
     ELSE IF k > r.n THEN "readdir-more-than-n"
     ELSE IF k > Len(rem) \/ names # Sub(rem, 1, k) THEN
-         (IF k <= Len(rem) /\ WrongNames(names, Sub(rem, 1, k)) = "order" THEN "readdir-page-not-sorted" ELSE "readdir-page-wrong-entries")
+         (IF k <= Len(rem) /\ WrongNames(names, Sub(rem, 1, k)) = "order" THEN "readdir-page-not-sorted"
+          ELSE IF rem = <<>> /\ h.all THEN "readdir-page-after-all-was-read"      \* entries again after a ReadDir(n<=0) returned everything
+          ELSE "readdir-page-wrong-entries")
     ELSE EntriesCauseFrom(F, h.path, rem, r.ents, 1)
   ELSE
     IF r.err # "nil" THEN "readdir-all-error"
@@ -161,6 +161,8 @@ ReadDirCause(F, h, r) ==
           ELSE IF h.pos > 0 /\ names = L THEN "readdir-all-restarts-from-beginning"
           ELSE "readdir-all-wrong-entries")
     ELSE EntriesCauseFrom(F, h.path, rem, r.ents, 1)
+ReadDirCauseL(F, h, r, L) == ReadDirCauseK(F, h, r, L, From(L, h.pos + 1), Len(r.ents), AsTuple(EntNames(r.ents)))
+ReadDirCause(F, h, r) == ReadDirCauseL(F, h, r, Listing(F, h.path))
 
 \* The judgement of one logged step in handle state h ("" = satisfies the contract).
 \* After Close io/fs specifies nothing (any error or answer passes); Read on a directory handle is
@@ -180,22 +182,18 @@ StepNext(F, h, r) ==
   IF h.closed THEN h
   ELSE CASE r.op = "close" -> [h EXCEPT !.closed = TRUE]
          [] r.op = "read" /\ h.kind = "file" -> [h EXCEPT !.pos = h.pos + Len(r.data)]
-         [] r.op = "readdir" /\ h.kind = "dir" ->
-              [h EXCEPT !.pos = IF r.n > 0 THEN h.pos + Len(r.ents) ELSE Len(Listing(F, h.path))]
+         [] r.op = "readdir" /\ h.kind = "dir" -> [h EXCEPT !.pos = h.pos + Len(r.ents), !.all = h.all \/ r.n <= 0]
+              \* (an accepted ReadDir(n<=0) returned all the remaining entries: pos is then the length of the listing)
          [] OTHER -> h
 
 \* replay of a whole logged sequence: cause of the first step the contract rejects ("" = none)
 RECURSIVE ReplayFrom(_, _, _, _)
 ReplayFrom(F, h, res, i) ==
   IF i > Len(res) THEN ""
-  ELSE LET c == StepCause(F, h, res[i]) IN
-       IF c # "" THEN c ELSE ReplayFrom(F, StepNext(F, h, res[i]), res, i + 1)
+  ELSE FirstOr(StepCause(F, h, res[i]), ReplayFrom(F, StepNext(F, h, res[i]), res, i + 1))
 \* a logged case: [files, name, open, res]
 CaseCause(F, p, o, res) ==
-  LET oc == OpenCause(F, p, o) IN
-  IF oc # "" THEN oc
-  ELSE IF o.err # "nil" THEN ""
-  ELSE ReplayFrom(F, RefOpen(F, p), res, 1)
+  FirstOr(OpenCause(F, p, o), IF o.err # "nil" THEN "" ELSE ReplayFrom(F, RefOpen(F, p), res, 1))
 
 (* ---- a canonical resolution of the contract's choices (used by MC to show the contract is satisfiable
         and to check its design-level invariants; the Trace spec never uses it) ---- *)
@@ -206,7 +204,12 @@ RefInfo(F, q) == [name |-> Base(q), isdir |-> IF IsFile(F, q) THEN 0 ELSE 1,
 RefStat(F, q) == LET i == RefInfo(F, q) IN [err |-> "nil", name |-> i.name, isdir |-> i.isdir, mtyp |-> i.mtyp, size |-> i.size, perm |-> i.perm]
 RefEntry(F, p, c) == LET i == RefInfo(F, Join(p, c)) IN
   [name |-> c, isdir |-> i.isdir, typ |-> i.mtyp, ierr |-> "nil", info |-> i, st |-> RefStat(F, Join(p, c))]
-Res(op, n, err, data, ents, info) == [op |-> op, n |-> n, err |-> err, data |-> data, ents |-> ents, info |-> info]
+\* the logged shape of a result: every record has op, n, err; stat adds info, read adds data, readdir adds ents
+Res(op, n, err, data, ents, info) ==
+  CASE op = "stat" -> [op |-> op, n |-> n, err |-> err, info |-> info]
+    [] op = "read" -> [op |-> op, n |-> n, err |-> err, data |-> data]
+    [] op = "readdir" -> [op |-> op, n |-> n, err |-> err, ents |-> ents]
+    [] OTHER -> [op |-> op, n |-> n, err |-> err]
 Min(a, b) == IF a < b THEN a ELSE b
 RefStep(F, h, op) ==
   IF h.closed THEN Res(op.op, op.n, "closed", <<>>, <<>>, NoInfo)
@@ -279,10 +282,8 @@ ImplEntry(F, dirname, full, variant) ==
   [name |-> i.name, isdir |-> i.isdir, typ |-> i.mtyp, ierr |-> "nil", info |-> i,
    st |-> ImplStatOfPath(F, Join(dirname, i.name))]
 
-ImplReadDir(F, g, n, variant) ==
-  LET dir == IF g.name # Root THEN g.name \o <<Slash>> ELSE <<>>
-      names == ImplSort(ImplCollect(F, dir, 1, <<>>, {}))
-      ent(s) == [j \in 1..Len(s) |-> ImplEntry(F, g.name, s[j], variant)] IN
+ImplReadDirK(F, g, n, variant, names) ==
+  LET ent(s) == [j \in 1..Len(s) |-> ImplEntry(F, g.name, s[j], variant)] IN
   IF variant = "as_written" THEN
     IF n > 0 THEN
       IF Len(names) <= g.n THEN [res |-> Res("readdir", n, "EOF", <<>>, <<>>, NoInfo), g |-> g]
@@ -295,6 +296,9 @@ ImplReadDir(F, g, n, variant) ==
     ELSE LET a == From(names, g.n + 1)
              b == IF n > 0 /\ Len(a) > n THEN Sub(a, 1, n) ELSE a IN
          [res |-> Res("readdir", n, "nil", <<>>, ent(b), NoInfo), g |-> [g EXCEPT !.n = g.n + Len(b)]]
+
+ImplReadDir(F, g, n, variant) ==
+  ImplReadDirK(F, g, n, variant, ImplSort(ImplCollect(F, IF g.name # Root THEN g.name \o <<Slash>> ELSE <<>>, 1, <<>>, {})))
 
 \* filesFile.Read (also what a filesDir answers: it embeds filesFile with nil data)
 ImplRead(g, n) ==
@@ -311,8 +315,8 @@ ImplStep(F, g, op, variant) ==
                             ELSE [res |-> Res("readdir", op.n, "noreaddir", <<>>, <<>>, NoInfo), g |-> g]   \* *filesFile has no ReadDir
 
 \* whole run of a case through the model: <<open result, results>>
-RECURSIVE ImplRunFrom(_, _, _, _, _)
+RECURSIVE ImplRunFrom(_, _, _, _, _), ImplRunCons(_, _, _, _, _)
 ImplRunFrom(F, g, ops, i, variant) ==
-  IF i > Len(ops) THEN <<>>
-  ELSE LET s == ImplStep(F, g, ops[i], variant) IN <<s.res>> \o ImplRunFrom(F, s.g, ops, i + 1, variant)
+  IF i > Len(ops) THEN <<>> ELSE ImplRunCons(F, ops, i, variant, ImplStep(F, g, ops[i], variant))
+ImplRunCons(F, ops, i, variant, s) == <<s.res>> \o ImplRunFrom(F, s.g, ops, i + 1, variant)
 =============================================================================
